@@ -104,6 +104,9 @@ RunFacts(r) ==
          /\ J("SCAN", "scan-shape", ShapeOK(r.ops[i]), [op |-> i])
          /\ J("NV", "scan-nv-misses-insert", NvOK(r, r.ops[i]), [op |-> i])
          /\ J("NV", "scan-nv-empty", NvNonEmpty(r.ops[i]), [op |-> i])
+   \* C12 under concurrency: the border version words a put's own unlocks advanced are exactly the nodes it reported (none for an overwrite / a refused unique put)
+   /\ \A i \in 1..Len(r.ops) : ("rep" \in DOMAIN r.ops[i]) =>
+         J("REP", "put-report-concurrent", r.ops[i].rep.unrep = 0 /\ r.ops[i].rep.unbump = 0, [op |-> i, rep |-> r.ops[i].rep])
    /\ IF Chk("QUIES") THEN LET f == QuiesFacts(r) IN J("QUIES", "quiescent-structure", f.nodirty /\ f.wellformed /\ f.chain_eq_scan /\ f.descent_eq_chain, f) ELSE TRUE
 \* ---- the search
 Start(r, i) == i <= NKeys(r)
